@@ -1230,8 +1230,14 @@ class Definition(Macro):
             # In a parameter, so get everything up to a token that matches `a`
             elif inparam:
                 param = []
+                level = 0
                 for t in tex.itertokens():
-                    if t == a:
+                    # A delimiter inside of a { } group doesn't count
+                    if t.catcode == Token.CC_BGROUP:
+                        level += 1
+                    elif t.catcode == Token.CC_EGROUP:
+                        level -= 1
+                    elif level <= 0 and t == a:
                         break
                     param.append(t)
                 inparam = False
